@@ -116,7 +116,7 @@ pub fn run(engine: &str, prop: &str, path: &str, v: &Value) -> i32 {
         "satobject" => {
             use crate::checks::c15::{run_history, BackendKind, SatOp};
             let hist: Vec<SatOp> = case["history"].as_array().unwrap().iter().map(SatOp::from_json).collect();
-            let b = if case["backend"].as_str() == Some("CadicalSolver") { BackendKind::Cadical } else { BackendKind::External };
+            let b = BackendKind::from_name(case["backend"].as_str().unwrap_or(""));
             println!("case: {} history {:?}", b.name(), hist.iter().map(|o| o.short()).collect::<Vec<_>>());
             verdict(prop, path, twice(&|| run_history(b, &hist).err().map(|(s, w, m)| format!("step {} [{}] {}", s + 1, w, m))))
         }
